@@ -54,6 +54,8 @@ func propRegistry() map[string]PropSpec {
 		BMC: []BMCSpec{
 			{Name: "entry3", Pkg: "cache", Fn: "Harness_BMC_entry3", Init: initCache, Only: []string{"C01.", "every-thread-completes", "race-free"}},
 			{Name: "store2", Pkg: "cache", Fn: "Harness_BMC_entry_store2", Init: initCache, Only: []string{"C01.", "every-thread-completes", "race-free"}},
+			{Name: "entry4", Pkg: "cache", Fn: "Harness_BMC_entry4", Init: initCache, Tier: "thorough", TimeoutSec: 3600, Only: []string{"C01.", "every-thread-completes", "race-free"}},
+			{Name: "store3", Pkg: "cache", Fn: "Harness_BMC_entry_store3", Init: initCache, Tier: "thorough", TimeoutSec: 3600, Only: []string{"C01.", "every-thread-completes", "race-free"}},
 		},
 		Explanation: "Bounded model checking of the real (*httpCache).Get/get/Cacheable/HitForPass (SSA of the current tree) for three concurrent requests on one key under a symbolic scheduler: the schedule, every clock reading (so expiry can fall at any point, also between a waiter's wake-up and its resumption) and every fetch outcome are solver variables. Obligations: at most one request of status fetching is at the upstream at any step; the status a request is given is always decided (fetching, hit or hit-for-pass); every request completes; the entry's state (status, response, waiter list, timestamps) is never accessed by two requests at once without a common lock (the race obligations appear only when some access is not consistently protected).",
 		Assumptions: bmcAssume,
@@ -69,6 +71,8 @@ func propRegistry() map[string]PropSpec {
 		BMC: []BMCSpec{
 			{Name: "entry3", Pkg: "cache", Fn: "Harness_BMC_entry3", Init: initCache, Only: []string{"C02.", "every-thread-completes", "no-panic", "C01.status", "race-free"}},
 			{Name: "store2", Pkg: "cache", Fn: "Harness_BMC_entry_store2", Init: initCache, Only: []string{"C02.", "every-thread-completes", "no-panic", "C01.status", "race-free"}},
+			{Name: "entry4", Pkg: "cache", Fn: "Harness_BMC_entry4", Init: initCache, Tier: "thorough", TimeoutSec: 3600, Only: []string{"C02.", "every-thread-completes", "no-panic", "C01.status", "race-free"}},
+			{Name: "store3", Pkg: "cache", Fn: "Harness_BMC_entry_store3", Init: initCache, Tier: "thorough", TimeoutSec: 3600, Only: []string{"C02.", "every-thread-completes", "no-panic", "C01.status", "race-free"}},
 		},
 		Explanation: "Same transition system as C01 (three concurrent requests, symbolic scheduler/clock/outcomes: cacheable or uncacheable-or-failed i.e. HitForPass). Obligations: every thread completes within the step bound under a scheduler that always runs an enabled thread (so a request still parked or blocked at the bound is a lost wake-up or deadlock, including a waiter that registered but had not yet started to wait); fetchers get no response, hits always carry the fetched response; no panic.",
 		Assumptions: bmcAssume,
